@@ -422,9 +422,12 @@ def run(cs, log, ctx):
                 if klass == "faulty" else 0
             budget = cs.between("fault_budget", 1, 6) if klass == "faulty" \
                 else 0
+            io_rate = cs.choice("io_fault_rate", [0, 0, 20, 60]) \
+                if klass == "faulty" else 0
             log.ev("config", nbatch, wait_secs, nchunks, klass, plan, nsites,
                    starts, backoff, bad_worker, dups, crash_rate, delay_rate,
-                   budget, [m.kwargs() for m in mm], [m.context for m in mm])
+                   budget, io_rate, [m.kwargs() for m in mm],
+                   [m.context for m in mm])
         ctx.hit("class." + klass)
 
         # ---- real managers (master's view), checked against the model
@@ -534,6 +537,8 @@ def run(cs, log, ctx):
         sim.fs = fs
         sim.fault_rates = {"crash": crash_rate, "delay": delay_rate}
         sim.fault_budget = budget
+        fs.io_fault_rate = io_rate
+        fs.io_fault_budget = 2 if io_rate else 0
         path = os.path.join(os.path.realpath(str(work)), "opm.json")
         started = {}          # manager index -> True once a write of it began
         history = []          # (worker i, inc, version k, ids)
@@ -552,7 +557,7 @@ def run(cs, log, ctx):
             managers[k][0].save(target, overwrite=overwrite)
             e1 = fs.write_epoch
             log.ev("save.end", k, e1 - e0)
-            if expected_write and e1 == e0:
+            if expected_write and e1 == e0 and io_rate == 0:
                 raise Violation("save_did_not_write",
                                 f"save(overwrite={overwrite}) with file "
                                 f"{'present' if existed else 'absent'} wrote "
